@@ -12,7 +12,7 @@ V = os.path.dirname(os.path.dirname(os.path.abspath(__file__)))
 sys.path.insert(0, V)
 from jslstatic.selftest import patches  # noqa: E402
 
-EXPECTED_MISSES = {"C05-s2", "C14-s2", "C07-u2VD", "C11-u2VI", "C14-u2VE", "C04-v1XC", "C04-v2XC", "C05-v2XH", "C11-v2XI", "C14-v1XF", "C04-w2ZC", "C11-w1ZI", "C14-w2ZE", "C15-w1ZG"}
+EXPECTED_MISSES = {"C05-s2", "C14-s2", "C07-u2VD", "C11-u2VI", "C14-u2VE", "C04-v1XC", "C04-v2XC", "C05-v2XH", "C11-v2XI", "C14-v1XF", "C04-w2ZC", "C11-w1ZI", "C14-w2ZE", "C15-w1ZG", "C03-x1NI", "C03-x2NI", "C04-x1NC", "C05-x1NH", "C07-x1ND", "C07-x2ND", "C13-x1NG", "C13-x2NG", "C14-x2NB", "C16-x2ND", "C20-x2NC"}
 
 
 def one(pid):
